@@ -39,6 +39,7 @@ struct Frame {  // a DNS message the library transmitted
   int         qid = 0, qtype = 0, qclass = 0;
   std::string qname;
   bool        edns = false;
+  int         rd = 0, cd = 0;
   std::string cookie;  // raw cookie option bytes (client 8 + server 0..32)
   std::string bytes;
   int         replied = 0;  // number of replies the environment built from this frame
